@@ -49,7 +49,9 @@ def _line():
     common = st.sampled_from(
         ["title: Test", "date: 2023-01-01", 'q: "it\'s ... here"', "list:", "  - a", "  - b", "k: |", "    text   ", "", "",
          "# comment", "x: {% tag %}", "a: <!-- c -->", "- item", "1. one", "long: " + "word " * 30, "--", "----", "--- x", "...",
-         "key: 'single'", "  indented: yes  ", "\ttabbed", "***", "===", "> q", "```", "| a | b |"]
+         "key: 'single'", "  indented: yes  ", "\ttabbed", "***", "===", "> q", "```", "| a | b |",
+         # a '---' that only an over-eager line splitter would see as a line of its own
+         "k: v\x85---\x85w", "a\u2028---\u2028b", "x\x0c---\x0cy", "p\x1c---\x1dq", "r\u2029---", "---\x0bs", "t\r---\ru", "v \x85 --- \x85 w"]
     )
     return st.one_of(base, base, common).map(lambda s: s.rstrip("\r") if s.endswith("\r") else s).filter(
         lambda s: s.strip() != "---" and "\n" not in s
